@@ -1,4 +1,155 @@
-(* placeholder while developing *)
-From PTN Require Import Lindblad.Sym.
-Example C15_placeholder : 1 = 1. Proof. reflexivity. Qed.
-Print Assumptions C15_placeholder.
+(* Property C15 — generated Lindbladians are the GKSL generator on the doubled space.
+   Statements only; each is closed by `exact`.  Model: Lindblad/Sym.v (generate_lindbladian with
+   the boolean `bug_sign`: true = the code as it stands, `new_frac = -1 * frac`; false = GKSL sign).
+
+   Reading guide.  `generate_struct b i` is the model of generate_lindbladian on input `i` (terms
+   with the ket and bra copies kept apart, every dictionary assignment in order); `generate b i`
+   renders it into exactly what the code returns (suffixed identifiers, final dictionaries) and is
+   what the correspondence check compares with /repo.  `denote_gen A .. g rho` applies the generated
+   term list to rho in the algebra A, reading labels and coefficients through the generated
+   dictionaries: a term (f, c, K (x) B) is rho |-> f*c * K rho B^T.  `alg_laws A` are laws of matrix
+   algebra; `wf_input`, `sound_flags`, `functional_tables` are defined in Sym.v. *)
+From Coq Require Import String List QArith Qcanon.
+From PTN Require Import Lindblad.Sym Lindblad.SymProofs.
+Import ListNotations.
+Local Close Scope Q_scope.
+
+(* ---- the GKSL form (bug_sign = false) -------------------------------------------------------- *)
+(* for all Hamiltonians, any number of jump operators on any sites, any sound classifier flags,
+   rational prefactors, symbolic rates: the generated superoperator is
+   H rho - rho H + i sum_k f_k gamma_k (L_k rho L_k^+ - 1/2 L_k^+ L_k rho - 1/2 rho L_k^+ L_k) *)
+Theorem C15_gksl_form_fixed : forall (A : alg), alg_laws A ->
+  forall (hval jval : label -> aL A) (hcoef jcoef : cname -> aC A) (i : input) (g : gen) (rho : aM A),
+  generate_struct false i = Ok g ->
+  wf_input i -> sound_flags A hval jval i -> functional_tables A hval jval hcoef jcoef g ->
+  denote_gen A hval jval hcoef jcoef g rho
+  = lindblad_rhs A hval jval hcoef jcoef false (h_terms i) (map deal (j_ops i)) rho.
+Proof. exact gksl_form_fixed. Qed.
+Print Assumptions C15_gksl_form_fixed.
+
+(* lindblad_rhs with sign `false` is literally the GKSL right-hand side *)
+Theorem C15_rhs_is_gksl : forall (A : alg) hval jval hcoef jcoef hs js rho,
+  lindblad_rhs A hval jval hcoef jcoef false hs js rho
+  = let H := ham_op A hval hcoef hs in
+    let half := qC A (1 # 2) in
+    madd A (madd A (mmul A H rho) (mopp A (mmul A rho H)))
+      (smul A (ci A)
+         (msum A (map (fun t : term =>
+            let gamma := cmul A (qC A (fst (fst t))) (jcoef (snd (fst t))) in
+            let Lk := tpval A jval (snd t) in
+            let LdL := mmul A (mH A Lk) Lk in
+            smul A gamma
+              (madd A (madd A (mmul A (mmul A Lk rho) (mH A Lk))
+                              (mopp A (smul A half (mmul A LdL rho))))
+                      (mopp A (smul A half (mmul A rho LdL))))) js))).
+Proof. exact rhs_is_gksl. Qed.
+Print Assumptions C15_rhs_is_gksl.
+
+(* both sign variants, for any valuation that agrees with every dictionary assignment: with
+   bug_sign = true the last term of every dissipator carries +1/2 (lindblad_rhs .. true ..) *)
+Theorem C15_lindblad_form_any_sign : forall (A : alg), alg_laws A ->
+  forall (hval jval : label -> aL A) (hcoef jcoef : cname -> aC A) (val : label -> aL A) (cval : cname -> aC A)
+         (sgn : bool) (i : input) (g : gen) (rho : aM A),
+  generate_struct sgn i = Ok g ->
+  wf_input i -> sound_flags A hval jval i ->
+  (forall l e, In (l, e) (g_log g) -> val l = meval A hval jval e) ->
+  (forall c e, In (c, e) (g_cwrites g) -> cval c = ceval A hcoef jcoef e) ->
+  denote_all A val cval (g_terms g) rho
+  = lindblad_rhs A hval jval hcoef jcoef sgn (h_terms i) (map deal (j_ops i)) rho.
+Proof. exact lindblad_form_val. Qed.
+Print Assumptions C15_lindblad_form_any_sign.
+
+(* ---- trace ------------------------------------------------------------------------------------ *)
+Theorem C15_gksl_trace_zero : forall (A : alg), alg_laws A ->
+  forall hval jval hcoef jcoef hs js rho,
+  tr A (lindblad_rhs A hval jval hcoef jcoef false hs js rho) = c0 A.
+Proof. exact gksl_trace_zero_laws. Qed.
+Print Assumptions C15_gksl_trace_zero.
+
+Theorem C15_generated_trace_zero_fixed : forall (A : alg), alg_laws A ->
+  forall (hval jval : label -> aL A) (hcoef jcoef : cname -> aC A) (i : input) (g : gen) (rho : aM A),
+  generate_struct false i = Ok g ->
+  wf_input i -> sound_flags A hval jval i -> functional_tables A hval jval hcoef jcoef g ->
+  tr A (denote_gen A hval jval hcoef jcoef g rho) = c0 A.
+Proof. exact generated_trace_zero_fixed. Qed.
+Print Assumptions C15_generated_trace_zero_fixed.
+
+(* ---- the current code is refuted (known finding C15-anticommutator-sign) ---------------------- *)
+(* one site of dimension 1, H = 0, L = 1, rate 1, over Q(i): the input satisfies every hypothesis
+   of the theorems above, and the generated superoperator applied to rho = 1 has trace i <> 0 *)
+Theorem C15_gksl_refuted_current :
+  exists (i : input) (g : gen),
+    generate_struct true i = Ok g /\
+    wf_input i /\
+    sound_flags Galg (fun _ => G1) (fun _ => G1) i /\
+    functional_tables Galg (fun _ => G1) (fun _ => G1) (fun _ => G1) (fun _ => G1) g /\
+    tr Galg (denote_gen Galg (fun _ => G1) (fun _ => G1) (fun _ => G1) (fun _ => G1) g (m1 Galg)) <> c0 Galg.
+Proof. exact gksl_refuted_current_full. Qed.
+Print Assumptions C15_gksl_refuted_current.
+
+Theorem C15_witness_values :
+  G_apply true witness_input G1 = Some Gi /\ G_apply false witness_input G1 = Some G0 /\ Gi <> G0.
+Proof. exact (conj witness_value_current (conj witness_value_fixed Gi_neq_G0)). Qed.
+Print Assumptions C15_witness_values.
+
+(* ---- closure of the generated dictionaries ------------------------------------------------------ *)
+Theorem C15_label_closure : forall sgn i ts conv co,
+  generate sgn i = Ok (ts, conv, co) ->
+  forall t, In t ts -> forall k l, In (k, l) (snd t) -> dmem l conv = true.
+Proof. exact label_closure. Qed.
+Print Assumptions C15_label_closure.
+
+Theorem C15_coeff_closure : forall sgn i ts conv co,
+  generate sgn i = Ok (ts, conv, co) -> wf_input i ->
+  forall t, In t ts -> dmem (snd (fst t)) co = true.
+Proof. exact coeff_closure. Qed.
+Print Assumptions C15_coeff_closure.
+
+Theorem C15_dictionaries_sign_independent : forall i ts conv co,
+  generate true i = Ok (ts, conv, co) -> exists ts', generate false i = Ok (ts', conv, co).
+Proof. exact dictionaries_sign_independent. Qed.
+Print Assumptions C15_dictionaries_sign_independent.
+
+(* ---- symbolic = dense under rate = coefficient^2 (same sign variant on both sides) ------------- *)
+Theorem C15_symbolic_eq_dense : forall (A : alg), alg_laws A ->
+  forall hval jval hcoef jcoef (sgn : bool) hs js (cls : list (aC A * aM A)) rho,
+  Forall2 (fun (t : term) cl =>
+             snd cl = tpval A jval (snd t) /\
+             cmul A (fst cl) (fst cl) = cmul A (qC A (fst (fst t))) (jcoef (snd (fst t)))) js cls ->
+  lindblad_rhs A hval jval hcoef jcoef sgn hs js rho
+  = exact_lindbladian A sgn (ham_op A hval hcoef hs) cls rho.
+Proof. exact symbolic_eq_dense_laws. Qed.
+Print Assumptions C15_symbolic_eq_dense.
+
+(* ---- non-vacuity ------------------------------------------------------------------------------- *)
+(* the laws are satisfiable: 1x1 matrices over Q(i) *)
+Example C15_laws_satisfiable : alg_laws Galg.
+Proof. exact Galg_laws. Qed.
+Print Assumptions C15_laws_satisfiable.
+
+(* a concrete run of the model (tests/test_lindbladian.py style input, two sites) *)
+Example C15_example_run :
+  generate true
+    {| h_terms := [((1 # 2)%Q, "g", [("n1", "A"); ("n2", "D")])];
+       h_conv := [("A", false); ("D", true)]; h_coeffs := ["1"; "g"];
+       j_ops := [JTerm (1 # 3)%Q "k" [("n1", "Aj"); ("n2", "Bj")]];
+       j_dict := [("Aj", {| f_real := false; f_herm := false; f_id := false |});
+                  ("Bj", {| f_real := true; f_herm := true; f_id := true |})];
+       j_coeffs := ["k"];
+       j_sym := [(MBase SJump "Aj", false); (MBase SJump "Bj", true); (MH (MBase SJump "Aj"), false);
+                 (MMul (MH (MBase SJump "Aj")) (MBase SJump "Aj"), false)];
+       ket_suffix := "_ket"; bra_suffix := "_bra" |}%string
+  = Ok ([((1 # 2)%Q, "g", [("n1_ket", "A"); ("n2_ket", "D")]);
+         ((-1 # 2)%Q, "g", [("n1_bra", "A_T"); ("n2_bra", "D")]);
+         ((1 # 3)%Q, "k*j", [("n1_ket", "Aj"); ("n2_ket", "Bj"); ("n1_bra", "Aj_conj"); ("n2_bra", "Bj")]);
+         ((-1 # 6)%Q, "k*j", [("n1_ket", "Aj_H_mult_Aj"); ("n2_ket", "Bj")]);
+         ((1 # 6)%Q, "k*j", [("n1_bra", "Aj_H_mult_Aj_T"); ("n2_bra", "Bj")])],
+        [("A", MBase SHam "A"); ("D", MBase SHam "D"); ("A_T", MT (MBase SHam "A"));
+         ("Aj_conj", MConj (MBase SJump "Aj")); ("Aj", MBase SJump "Aj"); ("Bj", MBase SJump "Bj");
+         ("Aj_H", MH (MBase SJump "Aj"));
+         ("Aj_H_mult_Aj", MMul (MH (MBase SJump "Aj")) (MBase SJump "Aj"));
+         ("Aj_T", MT (MBase SJump "Aj")); ("Aj_H_T", MT (MH (MBase SJump "Aj")));
+         ("Aj_H_mult_Aj_T", MT (MMul (MH (MBase SJump "Aj")) (MBase SJump "Aj")))],
+        [("1", CBase SHam "1"); ("g", CBase SHam "g"); ("k*j", CI (CBase SJump "k"))])%string.
+Proof. vm_compute. reflexivity. Qed.
+Print Assumptions C15_example_run.
